@@ -233,6 +233,14 @@ def make_label_script(spec, T, K):
             for j in range(c):
                 i = min(T - 2, 1 + (j + 1) * step - step // 2)
                 lab[i] = (lab[i] + 1) % K
+        elif sym in ("P5", "Q5"):
+            # K = 5, sizes chosen against min_cluster_size m: clusters 0 and 1 hold between 2m and 3m points (each can donate exactly
+            # once), clusters 2 and 3 two points each, cluster 4 two.  Q5 moves the points of 2 and 3 into 4: clusters 0 and 1 are not
+            # touched by that relabelling, 2 and 3 must both be refilled next round - from two different donors.
+            a, b = [int(v) for v in spec["sizes"]]
+            lab = [0] * a + [1] * b + [4] * 2 + ([2] * 2 + [3] * 2 if sym == "P5" else [4] * 4)
+            lab = lab + [4] * (T - len(lab))
+            lab = lab[:T]
         elif sym == "E":
             # empties the last cluster but for one point: forces a repopulation in the next round
             lab = [l if l < K - 1 else K - 2 for l in base]
